@@ -637,8 +637,14 @@ func traitDirs() ([]string, error) {
 	return out, nil
 }
 
-// holdsResource reports whether struct type name in p has a field of type *resource.Value / *resource.Collection.
-func holdsResource(p *pkgInfo, typeName string) bool {
+// holdsResource reports whether struct type name in p has a field of type *resource.Value / *resource.Collection,
+// directly or through a pointer to another struct of the package (a server holding its model).
+func holdsResource(p *pkgInfo, typeName string) bool { return holdsResourceN(p, typeName, 0) }
+
+func holdsResourceN(p *pkgInfo, typeName string, depth int) bool {
+	if depth > 2 {
+		return false
+	}
 	found := false
 	for _, f := range p.files {
 		ast.Inspect(f, func(n ast.Node) bool {
@@ -651,11 +657,18 @@ func holdsResource(p *pkgInfo, typeName string) bool {
 				return true
 			}
 			for _, fl := range st.Fields.List {
-				if se, ok := fl.Type.(*ast.StarExpr); ok {
-					if sel, ok := se.X.(*ast.SelectorExpr); ok && funName(sel) != "" {
-						if n := funName(sel); n == "resource.Value" || n == "resource.Collection" {
-							found = true
-						}
+				se, ok := fl.Type.(*ast.StarExpr)
+				if !ok {
+					continue
+				}
+				switch x := se.X.(type) {
+				case *ast.SelectorExpr:
+					if n := funName(x); n == "resource.Value" || n == "resource.Collection" {
+						found = true
+					}
+				case *ast.Ident:
+					if x.Name != typeName && holdsResourceN(p, x.Name, depth+1) {
+						found = true
 					}
 				}
 			}
